@@ -32,6 +32,13 @@ type TZTop struct {
 	TZOther
 }
 
+type TSInner struct{ Count int }
+type TSShadow struct {
+	TSInner
+	Count int `json:"count"`
+	Extra int `json:",omitempty"`
+}
+
 type Base2 struct {
 	Name string
 	ID   int
@@ -126,6 +133,13 @@ func typesetCatalog() []tsVal {
 				Tag string
 				Base2
 			}{"u", Base2{Name: "emb2", ID: 6}}
+		}},
+		{"tagged own shadows promoted", func() interface{} { return &TSShadow{TSInner{1}, 2, 3} }},
+		{"non-ASCII capitals", func() interface{} {
+			return &struct {
+				Éclair int
+				Ωmega  string
+			}{3, "w"}
 		}},
 		{"depth rule", func() interface{} { return &TZTop{TZMid{TZInner{1}}, TZOther{2}} }},
 		{"tags crossed", func() interface{} {
@@ -324,9 +338,9 @@ func runTypeset(r *engine.Run) {
 		}
 	}
 	if r.Thorough() {
-		for i := 0; i < 15; i++ {
-			for j := 0; j < 15; j++ {
-				for k := 0; k < 15; k++ {
+		for i := 0; i < 17; i++ {
+			for j := 0; j < 17; j++ {
+				for k := 0; k < 17; k++ {
 					if i != j && j != k && i != k {
 						seqs = append(seqs, seq{[]int{i, j, k}, false})
 					}
